@@ -864,7 +864,22 @@ func (env *Env) call(e *Expr) Value {
 			if v.T != nil && isInterface(v.T) {
 				return Value{T: mathInt, Tm: IfVal(v.Tm)}
 			}
-			t, _ := env.st.tryPtrTerm(v)
+			t, ok := env.st.tryPtrTerm(v)
+			if !ok && v.Ptr != nil && v.Ptr.Kind == RObj && len(v.Ptr.Path) > 0 {
+				// address of a field of an object: an uninterpreted function of the object and the field path
+				pathID, allFields := int64(0), true
+				for _, s := range v.Ptr.Path {
+					if s.IsIdx {
+						allFields = false
+						break
+					}
+					pathID = pathID*64 + int64(s.Field) + 1
+				}
+				if allFields {
+					eng.declare("subref", "(declare-fun subref (Int Int) Int)")
+					t = app(SInt, "subref", v.Ptr.Ref, IntLit(pathID))
+				}
+			}
 			return Value{T: mathInt, Tm: t}
 		case "off":
 			v := env.eval(args[0])
